@@ -15,6 +15,9 @@ using namespace asmjit;
 using vfmt::Cur; using vfmt::make_string; using vfmt::observe_text; using vfmt::any_flags; using vfmt::match_number;
 
 static int n_reg_calls, n_label_calls;
+// written field by field (a struct copy is a memcpy for the solver and the operand type stops being a constant)
+static Operand_ g_op;
+static inline void put(const Operand_& src) { g_op._signature = src._signature; g_op._base_id = src._base_id; g_op._data[0] = src._data[0]; g_op._data[1] = src._data[1]; }
 ASMJIT_BEGIN_SUB_NAMESPACE(arm)
 namespace FormatterInternal {
 Error ASMJIT_CDECL format_register(String& sb, FormatFlags, const BaseEmitter*, Arch, RegType reg_type, uint32_t reg_id, uint32_t element_type, uint32_t element_index) noexcept {
@@ -51,28 +54,25 @@ template<arm::ShiftOp OP> static inline void match_sop(Cur& c) {
 
 enum Base { kBaseReg, kBaseLabel };
 enum Mode { kFixed = 0, kPre = 1, kPost = 2 };
-// IT: type of the index register (kNone: no index). SOP: index modifier. AMT: 0 the amount is 0, 1 the amount is symbolic in 0..7.
-// OFF: 0 no offset, 1 symbolic offset (decimal below 2^OFFBITS in magnitude; hexadecimal: any 32-bit value, shown as the 64-bit two's complement).
-template<Base B, RegType IT, Mode M, arm::ShiftOp SOP, unsigned AMT, unsigned OFF, unsigned OFFBITS, unsigned MAXDEC, bool KF_REGION> static void a64_mem_case() {
+static bool reached_mem;
+// One path per shift amount (the amount is part of the operand signature: a symbolic signature makes format_operand explore every operand kind).
+// IT: type of the index register (kNone: no index). SOP: index modifier. AMOUNT: its amount.
+// OFF: 0 no offset, 1 symbolic offset (decimal below 2^OFFBITS in magnitude; hexadecimal: any 32-bit value, shown as the 64-bit two's complement), 2 and 3: the
+// constant offsets -256 and 4095 (the number formatting is the same code in every addressing form: it is decided on symbolic values in one form).
+template<Base B, RegType IT, Mode M, arm::ShiftOp SOP, uint32_t AMOUNT, unsigned OFF, unsigned OFFBITS, unsigned MAXDEC> static void a64_mem_path() {
   constexpr bool HAS_INDEX = IT != RegType::kNone;
   uint32_t bid = B == kBaseLabel ? uint32_t(nondet_u16()) : uint32_t(nondet_u8() & 31), iid = nondet_u8() & 31;
-  uint32_t amount = 0;
-  if (AMT == 1) amount = nondet_u8() & 7;
   int32_t off = 0;
   if (OFF == 1) { off = int32_t(nondet_u32()); if (off == 0) off = 1; }
-  a64::Mem m;
-  if constexpr (B == kBaseLabel) m = a64::Mem(Label(bid), off);
-  else if constexpr (HAS_INDEX) m = a64::Mem(a64::Gp::make_r64(bid), Reg::from_type_and_id(IT, iid), arm::Shift(SOP, amount));
-  else m = a64::Mem(a64::Gp::make_r64(bid), off);
-  if constexpr (HAS_INDEX && OFF == 1) m.set_offset_lo32(off);
+  if (OFF == 2) off = -256;
+  if (OFF == 3) off = 4095;
+  if constexpr (B == kBaseLabel) put(a64::Mem(Label(bid), off));
+  else if constexpr (HAS_INDEX) put(a64::Mem(a64::Gp::make_r64(bid), Reg::from_type_and_id(IT, iid), arm::Shift(SOP, AMOUNT)));
+  else put(a64::Mem(a64::Gp::make_r64(bid), off));
+  a64::Mem& m = g_op.as<a64::Mem>();
+  if constexpr (HAS_INDEX && OFF != 0) m.set_offset_lo32(off);
   if constexpr (M == kPre) m.make_pre_index();
   if constexpr (M == kPost) m.make_post_index();
-  // the modifier of an index is part of the operand even when its amount is 0 (LDR Xt, [Xn, Wm, SXTW] and [Xn, Wm, UXTW] are different instructions)
-  const bool extend_without_amount = HAS_INDEX && SOP != arm::ShiftOp::kLSL && amount == 0;
-#if KF_C20A
-  if (!KF_REGION) V_ASSUME(!extend_without_amount);
-#endif
-  if (KF_REGION) V_ASSUME(extend_without_amount);
   FormatFlags ff = any_flags();
   bool hex = Support::test(ff, FormatFlags::kHexOffsets);
   int64_t disp = off;
@@ -81,7 +81,7 @@ template<Base B, RegType IT, Mode M, arm::ShiftOp SOP, unsigned AMT, unsigned OF
 
   String sb; make_string<255>(sb);
   n_reg_calls = 0; n_label_calls = 0; no_heap::n_calls = 0; no_heap::active = true;
-  Error e = arm::FormatterInternal::format_operand(sb, ff, nullptr, Arch::kAArch64, m);
+  Error e = arm::FormatterInternal::format_operand(sb, ff, nullptr, Arch::kAArch64, g_op);
   no_heap::active = false;
   V_ASSERT(e == Error::kOk && no_heap::n_calls == 0, "a64 memory operand formatting succeeds within the buffer given");
   V_ASSERT(n_reg_calls == int(B == kBaseReg) + int(HAS_INDEX) && n_label_calls == int(B == kBaseLabel), "one register is printed per register of the operand and one label per label base");
@@ -91,40 +91,64 @@ template<Base B, RegType IT, Mode M, arm::ShiftOp SOP, unsigned AMT, unsigned OF
   if constexpr (B == kBaseLabel) match_label_token(c, bid); else match_reg_token(c, RegType::kGp64, bid);
   if constexpr (M == kPost) c.ch(']');
   if constexpr (HAS_INDEX) { c.lit(", "); match_reg_token(c, IT, iid); }
-  if constexpr (OFF == 1) {
+  if constexpr (OFF != 0) {
     c.lit(", ");
     if (hex && uint64_t(disp) > 9) { c.lit("0x"); if (c.uhex<16>() != uint64_t(disp)) c.ok = false; }
     else { if (disp < 0) c.ch('-'); if (c.udec<MAXDEC>() != mag) c.ok = false; }
   }
-  if (HAS_INDEX && (amount != 0 || SOP != arm::ShiftOp::kLSL)) {
+  // the modifier of an index is part of the operand even when its amount is 0 (LDR Xt, [Xn, Wm, SXTW] and [Xn, Wm, UXTW] are different instructions)
+  if constexpr (HAS_INDEX && (AMOUNT != 0 || SOP != arm::ShiftOp::kLSL)) {
     c.ch(' '); match_sop<SOP>(c);
-    if (amount != 0) { c.ch(' '); c.ch(char('0' + amount)); }
+    if constexpr (AMOUNT != 0) { c.ch(' '); c.ch(char('0' + AMOUNT)); }
   }
   if constexpr (M != kPost) c.ch(']');
   if constexpr (M == kPre) c.ch('!');
   V_ASSERT(c.at_end(), "a64 memory operand text denotes base, index, index modifier and amount, offset and the write-back mode of the operand");
   observe_text<24>(sb);
-  V_WITNESS("a64 mem formatted");
+  reached_mem = true;
+}
+// AMT: 0 the amount is 0; 1 the amount is symbolic in 0..4 (what load / store encodings can hold); 2 the amount is 0 and the modifier is an extend
+// (the region of known finding C20A). With C20A open, amount 0 of an extend is left out of the AMT = 1 harnesses.
+template<Base B, RegType IT, Mode M, arm::ShiftOp SOP, unsigned AMT, unsigned OFF, unsigned OFFBITS, unsigned MAXDEC> static void a64_mem_case() {
+  reached_mem = false;
+  if constexpr (AMT == 1) {
+    uint32_t amount = nondet_u8() & 7; if (amount > 4) amount -= 4;
+    constexpr bool kf_region_at_0 = IT != RegType::kNone && SOP != arm::ShiftOp::kLSL;
+    if (amount == 0) {
+#if KF_C20A
+      if (!kf_region_at_0)
+#endif
+      a64_mem_path<B, IT, M, SOP, 0, OFF, OFFBITS, MAXDEC>();
+    }
+    else if (amount == 1) a64_mem_path<B, IT, M, SOP, 1, OFF, OFFBITS, MAXDEC>();
+    else if (amount == 2) a64_mem_path<B, IT, M, SOP, 2, OFF, OFFBITS, MAXDEC>();
+    else if (amount == 3) a64_mem_path<B, IT, M, SOP, 3, OFF, OFFBITS, MAXDEC>();
+    else a64_mem_path<B, IT, M, SOP, 4, OFF, OFFBITS, MAXDEC>();
+  }
+  else a64_mem_path<B, IT, M, SOP, 0, OFF, OFFBITS, MAXDEC>();
+  if (reached_mem) V_WITNESS("a64 mem formatted");
 }
 constexpr RegType NOIDX = RegType::kNone, XI = RegType::kGp64, WI = RegType::kGp32;
 using arm::ShiftOp;
 // naming: h_a64mem_<base><index>_<mode>_<modifier><amount>_<offset>
-HARNESS h_a64mem_b_fix_none_o0() { a64_mem_case<kBaseReg, NOIDX, kFixed, ShiftOp::kLSL, 0, 0, 12, 4, false>(); }
-HARNESS h_a64mem_b_fix_none_o1() { a64_mem_case<kBaseReg, NOIDX, kFixed, ShiftOp::kLSL, 0, 1, 12, 4, false>(); }
-HARNESS h_a64mem_b_pre_none_o1() { a64_mem_case<kBaseReg, NOIDX, kPre, ShiftOp::kLSL, 0, 1, 12, 4, false>(); }
-HARNESS h_a64mem_b_post_none_o1() { a64_mem_case<kBaseReg, NOIDX, kPost, ShiftOp::kLSL, 0, 1, 12, 4, false>(); }
-HARNESS h_a64mem_b_post_none_o0() { a64_mem_case<kBaseReg, NOIDX, kPost, ShiftOp::kLSL, 0, 0, 12, 4, false>(); }
-HARNESS h_a64mem_bx_fix_lsl0_o0() { a64_mem_case<kBaseReg, XI, kFixed, ShiftOp::kLSL, 0, 0, 12, 4, false>(); }
-HARNESS h_a64mem_bx_fix_lsl_o0() { a64_mem_case<kBaseReg, XI, kFixed, ShiftOp::kLSL, 1, 0, 12, 4, false>(); }
-HARNESS h_a64mem_bx_fix_sxtx_o0() { a64_mem_case<kBaseReg, XI, kFixed, ShiftOp::kSXTX, 1, 0, 12, 4, false>(); }
-HARNESS h_a64mem_bw_fix_uxtw_o0() { a64_mem_case<kBaseReg, WI, kFixed, ShiftOp::kUXTW, 1, 0, 12, 4, false>(); }
-HARNESS h_a64mem_bw_fix_sxtw_o0() { a64_mem_case<kBaseReg, WI, kFixed, ShiftOp::kSXTW, 1, 0, 12, 4, false>(); }
-HARNESS h_a64mem_bx_post_lsl0_o0() { a64_mem_case<kBaseReg, XI, kPost, ShiftOp::kLSL, 0, 0, 12, 4, false>(); }
-HARNESS h_a64mem_bx_pre_lsl0_o0() { a64_mem_case<kBaseReg, XI, kPre, ShiftOp::kLSL, 0, 0, 12, 4, false>(); }
-HARNESS h_a64mem_bx_fix_lsl_o1() { a64_mem_case<kBaseReg, XI, kFixed, ShiftOp::kLSL, 1, 1, 12, 4, false>(); }
-HARNESS h_a64mem_l_fix_none_o0() { a64_mem_case<kBaseLabel, NOIDX, kFixed, ShiftOp::kLSL, 0, 0, 12, 4, false>(); }
-HARNESS h_a64mem_l_fix_none_o1() { a64_mem_case<kBaseLabel, NOIDX, kFixed, ShiftOp::kLSL, 0, 1, 12, 4, false>(); }
+HARNESS h_a64mem_b_fix_none_o0() { a64_mem_case<kBaseReg, NOIDX, kFixed, ShiftOp::kLSL, 0, 0, 12, 4>(); }
+HARNESS h_a64mem_b_fix_none_o1() { a64_mem_case<kBaseReg, NOIDX, kFixed, ShiftOp::kLSL, 0, 1, 12, 4>(); }
+HARNESS h_a64mem_b_pre_none_o2() { a64_mem_case<kBaseReg, NOIDX, kPre, ShiftOp::kLSL, 0, 2, 12, 4>(); }
+HARNESS h_a64mem_b_pre_none_o3() { a64_mem_case<kBaseReg, NOIDX, kPre, ShiftOp::kLSL, 0, 3, 12, 4>(); }
+HARNESS h_a64mem_b_post_none_o2() { a64_mem_case<kBaseReg, NOIDX, kPost, ShiftOp::kLSL, 0, 2, 12, 4>(); }
+HARNESS h_a64mem_b_post_none_o3() { a64_mem_case<kBaseReg, NOIDX, kPost, ShiftOp::kLSL, 0, 3, 12, 4>(); }
+HARNESS h_a64mem_b_post_none_o0() { a64_mem_case<kBaseReg, NOIDX, kPost, ShiftOp::kLSL, 0, 0, 12, 4>(); }
+HARNESS h_a64mem_bx_fix_lsl0_o0() { a64_mem_case<kBaseReg, XI, kFixed, ShiftOp::kLSL, 0, 0, 12, 4>(); }
+HARNESS h_a64mem_bx_fix_lsl_o0() { a64_mem_case<kBaseReg, XI, kFixed, ShiftOp::kLSL, 1, 0, 12, 4>(); }
+HARNESS h_a64mem_bx_fix_sxtx_o0() { a64_mem_case<kBaseReg, XI, kFixed, ShiftOp::kSXTX, 1, 0, 12, 4>(); }
+HARNESS h_a64mem_bw_fix_uxtw_o0() { a64_mem_case<kBaseReg, WI, kFixed, ShiftOp::kUXTW, 1, 0, 12, 4>(); }
+HARNESS h_a64mem_bw_fix_sxtw_o0() { a64_mem_case<kBaseReg, WI, kFixed, ShiftOp::kSXTW, 1, 0, 12, 4>(); }
+HARNESS h_a64mem_bx_post_lsl0_o0() { a64_mem_case<kBaseReg, XI, kPost, ShiftOp::kLSL, 0, 0, 12, 4>(); }
+HARNESS h_a64mem_bx_pre_lsl0_o0() { a64_mem_case<kBaseReg, XI, kPre, ShiftOp::kLSL, 0, 0, 12, 4>(); }
+HARNESS h_a64mem_l_fix_none_o0() { a64_mem_case<kBaseLabel, NOIDX, kFixed, ShiftOp::kLSL, 0, 0, 12, 4>(); }
+HARNESS h_a64mem_l_fix_none_o2() { a64_mem_case<kBaseLabel, NOIDX, kFixed, ShiftOp::kLSL, 0, 2, 12, 4>(); }
+HARNESS h_a64mem_bx_fix_lsl_o3() { a64_mem_case<kBaseReg, XI, kFixed, ShiftOp::kLSL, 1, 3, 12, 4>(); }
 // known finding C20A: an extend with amount 0 is not shown at all
-HARNESS h_a64mem_bw_fix_sxtw0_kf_C20A() { a64_mem_case<kBaseReg, WI, kFixed, ShiftOp::kSXTW, 0, 0, 12, 4, true>(); }
-HARNESS h_a64mem_bw_fix_uxtw0_kf_C20A() { a64_mem_case<kBaseReg, WI, kFixed, ShiftOp::kUXTW, 0, 0, 12, 4, true>(); }
-HARNESS h_a64mem_bx_fix_sxtx0_kf_C20A() { a64_mem_case<kBaseReg, XI, kFixed, ShiftOp::kSXTX, 0, 0, 12, 4, true>(); }
+HARNESS h_a64mem_bw_fix_sxtw0_kf_C20A() { a64_mem_case<kBaseReg, WI, kFixed, ShiftOp::kSXTW, 2, 0, 12, 4>(); }
+HARNESS h_a64mem_bw_fix_uxtw0_kf_C20A() { a64_mem_case<kBaseReg, WI, kFixed, ShiftOp::kUXTW, 2, 0, 12, 4>(); }
+HARNESS h_a64mem_bx_fix_sxtx0_kf_C20A() { a64_mem_case<kBaseReg, XI, kFixed, ShiftOp::kSXTX, 2, 0, 12, 4>(); }
